@@ -4,7 +4,11 @@
    1902 merge_concurrent (value model)  langs                         -> result langs
    1903 ok_merge                        [langs; obs1; obs2]           -> ok
    1904 adjust_objs (object model)      [skew; off; heap; refs]       -> langs      (bad if a reference dangles)
-   1905 adjust_objs_prefix (pinned loop, applies the map once per listing) same args -> langs  *)
+   1905 adjust_objs_prefix (pinned loop, applies the map once per listing) same args -> langs
+   1906 composition law                 [sk1; off1; sk2; off2; langs] -> [adjust sk2 off2 (adjust sk1 off1 langs);
+                                         adjust (sk1*sk2) (off1*sk2+off2) (survivors of the first step)]
+   1907 merge laws                      [sk; off; langs] -> [[merge_accepts lang ...]; adjust sk off drops nothing?;
+                                         result (adjust sk off (merge_concurrent langs))]  *)
 From Coq Require Import List ZArith QArith Bool.
 From PV Require Import lib.Sx lib.Str lib.Result.
 From PV Require Import model.Base model.BaseObj spec.SpecBase extract.OrCommon.
@@ -60,6 +64,32 @@ Definition req_c19_adjust_objs (once : bool) (arg : sx) : sx :=
   | _ => bad
   end.
 
+Definition req_c19_compose (arg : sx) : sx :=
+  match arg with
+  | SL [sk1; off1; sk2; off2; ls] =>
+      match sx_q sk1, sx_q off1, sx_q sk2, sx_q off2, sx_langs ls with
+      | Some sk1, Some off1, Some sk2, Some off2, Some ls =>
+          SL [of_langs (adjust sk2 off2 (adjust sk1 off1 ls));
+              of_langs (adjust (sk1 * sk2) (off1 * sk2 + off2)
+                               (map (filter (survives sk1 off1)) ls))]
+      | _, _, _, _, _ => bad
+      end
+  | _ => bad
+  end.
+
+Definition req_c19_laws (arg : sx) : sx :=
+  match arg with
+  | SL [sk; off; ls] =>
+      match sx_q sk, sx_q off, sx_langs ls with
+      | Some sk, Some off, Some ls =>
+          SL [of_list of_bool (map merge_accepts ls);
+              of_bool (forallb (forallb (survives sk off)) ls);
+              of_result of_langs (do m <- merge_concurrent ls; Ok (adjust sk off m))]
+      | _, _, _ => bad
+      end
+  | _ => bad
+  end.
+
 Definition dispatch (code : Z) (arg : sx) : option sx :=
   match code with
   | 1900 => Some (req_c19_adjust arg)
@@ -68,5 +98,7 @@ Definition dispatch (code : Z) (arg : sx) : option sx :=
   | 1903 => Some (req_c19_ok_merge arg)
   | 1904 => Some (req_c19_adjust_objs true arg)
   | 1905 => Some (req_c19_adjust_objs false arg)
+  | 1906 => Some (req_c19_compose arg)
+  | 1907 => Some (req_c19_laws arg)
   | _ => None
   end.
